@@ -1343,6 +1343,7 @@ class Interp:
         lname = '%s.loop%d' % (key[1], key[2])
         ctx = LoopCtx()
         ctx.iter = it
+        ctx.node = s
         ctx.entry_env = dict(fr.env)
         ctx.entry_vals = {k: models.snapshot(v) for k, v in fr.env.items()}
         ctx.entry_ghost = dict(run.ghost)
